@@ -35,9 +35,9 @@ OUT_OF_BOUNDS = ['more than 3 threads', 'programs longer than the listed ones', 
 FUNCTIONS_ENCODED = ['building.py:_in_build', 'building.py:_BuildGuardState', 'history.py:_TrackingState',
                      'history.py:suspend_tracking', 'history.py:set_tracking', 'history.py:tracking_enabled',
                      'history.py:History.add_new_value', 'history.py:new_value', 'history.py:_set_counter',
-                     'signatures.py:get_signature', 'signatures.py:_signature_cache']
+                     'signatures.py:get_signature', 'signatures.py:_signature_cache', 'daglish.py:MemoizedTraversal.apply']
 
-F_TOK, G_TOK = 100, 101
+F_TOK, G_TOK, LEAF_TOK = 100, 101, 102
 
 
 def _repo():
@@ -47,8 +47,12 @@ def _repo():
 def _mods():
   from engines import b3
   r = _repo() + '/fiddle/_src/'
-  return {'building': b3.Mod(r + 'building.py', 'building'), 'history': b3.Mod(r + 'history.py', 'history'),
-          'signatures': b3.Mod(r + 'signatures.py', 'signatures')}
+  mods = {'building': b3.Mod(r + 'building.py', 'building'), 'history': b3.Mod(r + 'history.py', 'history'),
+          'signatures': b3.Mod(r + 'signatures.py', 'signatures'), 'daglish': b3.Mod(r + 'daglish.py', 'daglish')}
+  # every traversal (fdl.build, iterate, select ...) creates its own MemoizedTraversal: one instance per thread; which of
+  # its dicts live on the instance and which on the class is read from the class body
+  mods['daglish'].add_instance('$trav', 'MemoizedTraversal', per_thread=True)
+  return mods
 
 
 # ----------------------------------------------------------------------------- thread programs
@@ -56,7 +60,7 @@ def _mods():
 def _compile(program, mods):
   """program: list of steps; returns (ops, locs, thread_local)."""
   from engines import b3
-  c = b3.Compiler(mods, [F_TOK, G_TOK])
+  c = b3.Compiler(mods, [F_TOK, G_TOK, LEAF_TOK])
   h, bld, sg = mods['history'], mods['building'], mods['signatures']
 
   def edit():
@@ -94,6 +98,9 @@ def _compile(program, mods):
       elif kind == 'read_flags':
         r = c.inline(h.funcs['tracking_enabled'], [], {}, h, 0)
         c.emit('obs', 'enabled', r, 0)
+      elif kind == 'traverse':
+        dg = mods['daglish']
+        c.inline(dg.method('MemoizedTraversal', 'apply'), [('global', '$trav'), ('const', st[1]), ('const', 0)], {}, dg, 0)
       else:
         raise b3.Unsupported(kind)
 
@@ -113,13 +120,17 @@ PROGRAMS = {
     'sig_g': [('signature', G_TOK, 'sig1')],
     'sig_fg': [('signature', F_TOK, 'sig1'), ('signature', G_TOK, 'sig2')],
     'edit_sig': [('edit',), ('signature', F_TOK, 'sig1'), ('edit',)],
+    # a memoized traversal reaching a leaf object that both threads' (disjoint) configurations contain: CPython shares
+    # small ints, interned strings and None between unrelated structures
+    'traverse_leaf': [('traverse', LEAF_TOK), ('read_flags',)],
 }
 
 QUICK_SYSTEMS = [('build', 'build'), ('build_nested', 'build'), ('build_nested', 'build_nested'), ('edit2', 'edit2'),
                  ('suspend_edit', 'edit2'), ('suspend_edit', 'suspend_edit'), ('nested_suspend', 'edit2'),
                  ('tracking_off_on', 'edit2'), ('tracking_off_on', 'suspend_edit'), ('suspend_edit', 'nested_suspend'), ('tracking_off_on', 'nested_suspend'),
                  ('sig_f', 'sig_g'), ('sig_fg', 'sig_g'),
-                 ('sig_f', 'sig_f'), ('edit_sig', 'sig_g'), ('build', 'suspend_edit')]
+                 ('sig_f', 'sig_f'), ('edit_sig', 'sig_g'), ('build', 'suspend_edit'), ('traverse_leaf', 'traverse_leaf'),
+                 ('traverse_leaf', 'build')]
 THOROUGH_EXTRA = [('build', 'build', 'build'), ('suspend_edit', 'edit2', 'edit2'), ('sig_f', 'sig_g', 'sig_fg'),
                   ('tracking_off_on', 'suspend_edit', 'edit2'), ('build_nested', 'build', 'suspend_edit'),
                   ('nested_suspend', 'nested_suspend'), ('edit_sig', 'edit_sig'), ('tracking_off_on', 'tracking_off_on')]
@@ -169,6 +180,11 @@ def _real_run(program, callables, cfg=None):
         obs[st[2]] = 1000 + (st[1] if st[1] in tok else (tok[0] if tok else 0))
       elif k == 'read_flags':
         obs['enabled'] = 1 if history.tracking_enabled() else 0
+      elif k == 'traverse':
+        from fiddle import daglish
+        leaf = 3                                # the same object in every thread (small ints are shared)
+        trav = daglish.MemoizedTraversal(traversal_fn=lambda v, s: v, root_obj=leaf)
+        trav.apply(leaf, trav.initial_state())
   try:
     run(program)
   except Exception:  # pylint: disable=broad-except
@@ -217,6 +233,21 @@ def _shared_state_inventory():
         if isinstance(node, ast.Global):
           for n in node.names:
             found[f'{rel}:{n}'] = 'rebound under `global`'
+      for cls in ast.walk(tree):
+        if not isinstance(cls, ast.ClassDef):
+          continue
+        for node in cls.body:
+          tgt = val = None
+          if isinstance(node, ast.Assign) and isinstance(node.targets[0], ast.Name):
+            tgt, val = node.targets[0].id, node.value
+          elif isinstance(node, ast.AnnAssign) and isinstance(node.target, ast.Name) and node.value is not None:
+            tgt, val = node.target.id, node.value
+          if tgt is None:
+            continue
+          if isinstance(val, (ast.Dict, ast.List, ast.Set)) or (isinstance(val, ast.Call) and ast.unparse(val.func) in (
+              'dict', 'list', 'set', 'collections.defaultdict', 'weakref.WeakKeyDictionary', 'collections.OrderedDict',
+              'itertools.count')):
+            found[f'{rel}:{cls.name}.{tgt}'] = 'class-level mutable container (one object for all instances and threads)'
       for node in tree.body:
         if isinstance(node, ast.Assign) and len(node.targets) == 1 and isinstance(node.targets[0], ast.Name):
           v = node.value
@@ -240,6 +271,9 @@ CLASSIFIED = {
     'history.py:_location_provider': 'process-wide by design (custom_location); not among the programs',
     'daglish_extensions.py:_IMMUTABLE_OBJECT_IDS': 'registry written by explicit registration calls only',
     'daglish_extensions.py:_FUNCTIONS_WITH_IMMUTABLE_RETURN_VALUES': 'registry written by explicit registration calls only',
+    'codegen/auto_config/experimental_top_level_api.py:CodegenPass.PASS_INPUT_KWARGS': 'constant list, never mutated',
+    'codegen/auto_config/experimental_top_level_api.py:TransformSubFixtures.PASS_INPUT_KWARGS': 'constant list, never mutated',
+    'daglish.py:MemoizedTraversal._cycle_start': 'modelled when present (traverse_leaf programs)',
 }
 
 
@@ -417,7 +451,7 @@ def _replay(names, accesses, alone):
   freely.  Returns True iff some thread's observation deviates from its alone-run (the violation reproduces)."""
   import sys
   files = {'building': _repo() + '/fiddle/_src/building.py', 'history': _repo() + '/fiddle/_src/history.py',
-           'signatures': _repo() + '/fiddle/_src/signatures.py'}
+           'signatures': _repo() + '/fiddle/_src/signatures.py', 'daglish': _repo() + '/fiddle/_src/daglish.py'}
   sched = []
   for tid, _, loc, line in accesses:
     mod = loc.split('.')[0]
